@@ -18,8 +18,8 @@ def clauses(res):
     return sorted({l.split("clause ")[1].split(" ")[0] for l in res["lines"]}), res["violations"]
 
 
-def run(name, expect_some):
-    res = cw.hook_part(0)
+def run(name, expect_some, pid="C07"):
+    res = cw.hook_part(0, pid=pid)
     cl, n = clauses(res)
     ok = (n > 0) == expect_some
     print(f"{'ok ' if ok else 'BAD'} {name}: {n} failing clauses, e.g. {cl[:6]}")
@@ -84,4 +84,24 @@ def expand_all(self, curie, *, strict=False):
 C.expand_all = expand_all
 good &= run("expand_all ignores a rejecting hook", True)
 C.expand_all = orig_ea
+
+# 4. strict mode: a rejection by the hook is swallowed (None instead of an error) -- C08 on hooked converters
+orig_ex = C.expand
+
+
+def expand(self, curie, *, strict=False, passthrough=False):
+    try:
+        return orig_ex(self, curie, strict=strict, passthrough=passthrough)
+    except ValueError:
+        p, sep, _ = curie.partition(self.delimiter)
+        if sep and self.standardize_prefix(p) is not None:      # the prefix is known: it was the hook that said no
+            return None
+        raise
+
+
+C.expand = expand
+good &= run("strict expand swallows the hook's rejection (C07 view: expand_strict and the strict clause of P_C07H)", True)
+good &= run("strict expand swallows the hook's rejection", True, pid="C08")
+C.expand = orig_ex
+good &= run("unchanged library accepted (C08 clauses)", False, pid="C08")
 sys.exit(0 if good else 1)
